@@ -655,6 +655,7 @@ def run(ctx):
             extra_oracles2.select_entry_points(ctx)
             from .. import extra_oracles3
             extra_oracles3.select_round6(ctx)
+            extra_oracles3.select_float32(ctx)
             ctx.obligation('oracle:close-tau-history', why is None, 'witness-search', why or '')
             ctx.case(('oracle', 'close-tau-history'), None)
             if why:
